@@ -3,7 +3,7 @@ import PynGen.InplaceSites
 /-!
 # C10 — operations never modify their arguments; containers reject in-place writes
 
-Three parts.
+Four parts (the fourth, `frozen_history`, needs no assumption on the operations: frozen buffers are unchanged after any history of arbitrary writes).
 1. **Frame theorem** on the effect model (`PynModel/Core/Frame.lean`): if every write of every
    operation targets a buffer allocated inside that operation, then after ANY history every buffer
    that existed before is unchanged (`frame_history`, induction over the history).
@@ -69,6 +69,52 @@ theorem nonlocal_write_witness :
     let h : Heap := ⟨1, fun i => if i = 0 then some 7 else none⟩
     (h.apply ⟨0, [(0, 9)]⟩).cell 0 = some 9 := by decide
 
+/-! ## frozen buffers: no hypothesis on the operations at all -/
+theorem fwrite_frozen (h h' : FHeap) (w : Nat × Int) (hw : h.write w = some h') :
+    h'.frozen = h.frozen ∧ ∀ i, h.frozen i = true → h'.heap.cell i = h.heap.cell i := by
+  unfold FHeap.write at hw
+  split at hw
+  · cases hw
+  · rename_i hf
+    cases hw
+    refine ⟨rfl, fun i hi => ?_⟩
+    have : i ≠ w.1 := fun e => by rw [e] at hi; exact hf hi
+    simp [Heap.write, this]
+
+/-- one operation — any sequence of attempted writes, through any alias — leaves every frozen buffer as it was, and frozen -/
+theorem attempt_frozen (ws : List (Nat × Int)) (h : FHeap) :
+    (h.attempt ws).frozen = h.frozen ∧ ∀ i, h.frozen i = true → (h.attempt ws).heap.cell i = h.heap.cell i := by
+  induction ws generalizing h with
+  | nil => exact ⟨rfl, fun _ _ => rfl⟩
+  | cons w ws ih =>
+    unfold FHeap.attempt
+    cases hw : h.write w with
+    | none => exact ⟨rfl, fun _ _ => rfl⟩
+    | some h' =>
+      obtain ⟨f1, c1⟩ := fwrite_frozen h h' w hw
+      obtain ⟨f2, c2⟩ := ih h'
+      exact ⟨by rw [f2, f1], fun i hi => by rw [c2 i (by rw [f1]; exact hi), c1 i hi]⟩
+
+/-- **frame theorem for frozen buffers**: after ANY history of ANY operations (no locality assumption: user code writing through `ep.start`,
+`ep[:, 0]`, `ts.t`, augmented assignments, `out=` arguments) the start/end array of every IntervalSet and every time index is unchanged -/
+theorem frozen_history (ops : List (List (Nat × Int))) (h : FHeap) (i : Nat) (hi : h.frozen i = true) :
+    (h.run ops).heap.cell i = h.heap.cell i ∧ (h.run ops).frozen i = true := by
+  unfold FHeap.run
+  induction ops generalizing h with
+  | nil => exact ⟨rfl, hi⟩
+  | cons o os ih =>
+    simp only [List.foldl_cons]
+    obtain ⟨f1, c1⟩ := attempt_frozen o h
+    obtain ⟨a, b⟩ := ih (h.attempt o) (by rw [f1]; exact hi)
+    exact ⟨by rw [a, c1 i hi], b⟩
+
+/-- the write that used to corrupt a live IntervalSet (`ep[:, 0] += 7` on `[[0,5],[10,20]]`) is refused and stores nothing;
+on an unfrozen buffer the same write goes through (`nonlocal_write_witness`) -/
+theorem frozen_write_refused :
+    let h : FHeap := ⟨⟨1, fun i => if i = 0 then some 0 else none⟩, fun i => i == 0⟩
+    (h.attempt [(0, 7)]).heap.cell 0 = some 0 ∧ h.write (0, 7) = none := by
+  constructor <;> rfl
+
 /-! ## the write sites of the library -/
 
 /-- hand-justified sites: (function, root) — with the reason each write cannot reach a caller's object -/
@@ -93,6 +139,9 @@ def whitelist : List (String × String) := [
   -- a copy made two lines above.  Neither changes a value, neither reaches a caller's array
   ("interval_set:IntervalSet.__init__", "self.values"),
   ("time_index:TsIndex.__new__", "obj"),
+  -- `self.index = self.index.view(); self.index.flags.writeable = False` (same `fix:`): the flag is set on the VIEW object created on the line
+  -- before, for an index that arrived writeable (computed from another one); the array object the caller may hold keeps its own flag
+  ("base_class:_Base.__init__", "self.index"),
   ("ts_group:TsGroup.__init__", "self.__dict__"),
   -- `data` is rebound to a new dict (`dict(enumerate(data))` / `{keys[j]: data[k] …}`) before the write
   ("ts_group:TsGroup.__init__", "data"),
